@@ -50,7 +50,7 @@ Definition vworse (a b : verdict) : verdict :=
 
 (* ------------------------------------------------------------------ 701: model vs reference
    fields: schema, bytes, value the reference decoder reports *)
-Definition check_701 (fs : list field) : verdict :=
+Definition check_701_gen (domain : bool) (fs : list field) : verdict :=
   match parse_head fs with
   | Some (root, sc, bs, r) =>
     match parse_msg r with
@@ -60,12 +60,16 @@ Definition check_701 (fs : list field) : verdict :=
       | Some m =>
         vand (expect 52 (pval_eqv (VMsg m) (VMsg exp)) [])         (* same value as the reference reports *)
        (vand (expect 53 (bytes_eqb (encode_msg m) bs) [FB (encode_msg m)])   (* canonical encoder = reference encoder *)
-             (expect 54 (wf_msg sc root m) []))                    (* inside the domain of the round-trip theorem *)
+             (expect 54 (if domain then wf_msg sc root m else true) []))   (* inside the domain of the round-trip theorem *)
       end
     | _ => VBad 99 []
     end
   | None => VBad 99 []
   end.
+Definition check_701 (fs : list field) : verdict := check_701_gen true fs.
+(* 704: the same for the deep class (values nested 10 .. 5000 levels along a self-typed field) without the wf_msg test:
+   the executable wf_fld re-encodes every sub-message at every level (cubic in the depth: 15 s at depth 1024) *)
+Definition check_704 (fs : list field) : verdict := check_701_gen false fs.
 
 (* ------------------------------------------------------------------ 702: lookups *)
 Definition last_step (p : list pstep) : option pstep := match rev p with s :: _ => Some s | [] => None end.
@@ -226,11 +230,13 @@ Definition len_ok (recursive : bool) (r : lres) (ln : Z) : bool :=
   | _ => true
   end.
 
-(* recursive loads of the root for every repair configuration (computed once per case line, API 7) *)
+(* recursive loads of the root for every repair configuration (APIs 7 and 10; computed only for a query that deviates
+   from the spec, and only for messages up to 6000 bytes - the as-coded scan of a value nested 5000 levels costs seconds per
+   configuration: a deviation on a larger message (deep class only) is reported as a violation without classification) *)
 Definition root_loads (sc : schema) (root : list Z) (bs : list Z) : list (list Z * tres) :=
   map (fun off => (off, a_load (fx_of off) sc true (root_node root bs))) (subsets_by_size [706; 711]).
 
-Definition judge_702 (sc : schema) (root : list Z) (m : pmsg) (bs : list Z) (api : Z) (loads : list (list Z * tres))
+Definition judge_702 (sc : schema) (root : list Z) (m : pmsg) (bs : list Z) (api : Z) (loads : unit -> list (list Z * tres))
            (p : list pstep) (st ty : Z) (raw : list Z) (x : qextra) : verdict :=
   if st =? 9 then VSkip else
   let r := plookup_root sc root m p in
@@ -285,8 +291,8 @@ Definition judge_702 (sc : schema) (root : list Z) (m : pmsg) (bs : list Z) (api
                      | MUnmod => false
                      end)) bad
     end
-  else if api =? 7 then
-    (* PathNode.Load(recurse=true) on the root, then a walk along the path *)
+  else if (api =? 7) || (api =? 10) then
+    (* PathNode.Load(recurse=true) / Node.Children(recurse=true) on the root, then a walk along the path *)
     if obs_ok api p r st ty raw then (if len_ok true r (q_len x) then VOk else VBad 7 [FZ (q_len x)])
     else if pval_any is_oos_map rootv then VDrift 1
     else known_or_bad
@@ -296,7 +302,7 @@ Definition judge_702 (sc : schema) (root : list Z) (m : pmsg) (bs : list Z) (api
                                | TErr => (st =? 1) || (st =? 2)
                                | TPanic => st =? 3
                                | TUnmod => false
-                               end) loads)) bad
+                               end) (loads tt))) bad
   else
     if obs_ok api p r st ty raw then (if len_ok false r (q_len x) then VOk else VBad 7 [FZ (q_len x)])
     else if path_out_of_subset sc LSingular (TMsg root) rootv p then VDrift 1
@@ -347,7 +353,7 @@ Definition check_702 (fs : list field) : verdict :=
     if negb (count_ok nq) then VBad 99 [] else
     match decode_top sc root bs with
     | None => VSkip
-    | Some m => run_queries (judge_702 sc root m bs api (if api =? 7 then root_loads sc root bs else [])) (has_extra api) ((api =? 7) || (api =? 8)) (Z.to_nat nq) 0 r VOk []
+    | Some m => run_queries (judge_702 sc root m bs api (fun _ => if ((api =? 7) || (api =? 10)) && (plen bs <=? 6000) then root_loads sc root bs else [])) (has_extra api) ((api =? 7) || (api =? 8) || (api =? 10)) (Z.to_nat nq) 0 r VOk []
     end
   | _ => VBad 99 []
   end.
